@@ -1,2 +1,4 @@
-(* placeholder, replaced below *)
-From Verif.C08_Batch Require Import Model Witness.
+(* C08 - umbrella: Base (infrastructure, sync.Once invariant), Safety (writer protocol, store = commits),
+   Life (scheduledCount accounting, termination of the writer, Stop waits), Complete (what Stop guarantees),
+   Witness (pinned defects D08a/D08b, regressions). *)
+From Verif.C08_Batch Require Export Model Base Safety Life Complete Witness.
